@@ -397,6 +397,8 @@ pub fn run_c18(run: &mut Run, replay: Option<&std::path::Path>) -> anyhow::Resul
         let npeers = 1 + rng.below(4);
         let len = 5 + rng.below(if run.quick() { 40 } else { 200 });
         let script = replay_ops.clone();
+        let work = run.work.clone();
+        let _ = std::fs::create_dir_all(&work);
         let res: anyhow::Result<Vec<(String, String, Option<String>)>> = rt.block_on(async {
             let mut out: Vec<(String, String, Option<String>)> = vec![];
             let (mut limit, mut block) = (limit, block);
@@ -460,6 +462,17 @@ pub fn run_c18(run: &mut Run, replay: Option<&std::path::Path>) -> anyhow::Resul
                         O::Cancel(r, p)
                     }
                 };
+                // a hang inside the layer is attributed to the history so far plus this op
+                {
+                    let next = match &o {
+                        O::Arrive(r, p) => format!("inflight.arrive r={r} peer={}", p.map(|x| x.to_string()).unwrap_or_else(|| "none".into())),
+                        O::Finish(r, p, ok) => format!("inflight.finish r={r} peer={p} ok={ok}"),
+                        O::Cancel(r, p) => format!("inflight.cancel r={r} peer={p}"),
+                    };
+                    let mut lines: Vec<&str> = out.iter().map(|l| l.0.as_str()).collect();
+                    lines.push(&next);
+                    let _ = std::fs::write(work.join("current_op.txt"), lines.join("\n"));
+                }
                 let (op, head) = match o {
                     O::Arrive(r, p) => {
                         let mut req = Request::new(Bytes::new()).with_header("r", r.to_string());
